@@ -26,6 +26,7 @@ EXPLANATION = (
     "StopIteration of the callable would end the flow silently).  "
     "Does not decide the yielded values nor associativity for arbitrary user elements.")
 RULES = {
+    "C01-g": "CAPABLE: an object kept as given under isinstance(x, C) and later sent run/fill/compute/request is of a class C that defines that method",
     "C01-a": "FOLD: Sequence.run = wrap(fold(el.run over self._data_seq forwards, wrap(flow))) on every path",
     "C01-b": "TYPESTATE: constructors store only elements with a callable run / the given first element; failures raise LenaTypeError",
     "C01-c": "Source.__call__ feeds first()/first into the tail and does not skip a non-empty tail",
@@ -467,7 +468,88 @@ def check_generator_frame(ctx):
         ctx.ok("C01-f", ("lena", "<tree>"), "%d flow-processing functions: callables are applied in generator frames only" % n)
 
 
+PROTOCOL_METHODS = ("run", "fill", "compute", "request", "fill_into")
+
+
+def _class_defines(ctx, canon, meth, depth=0):
+    """Does the lena class *canon* (dotted) or one of its lena bases define method *meth*?  None if it cannot be told."""
+    if not canon or depth > 6:
+        return None
+    modname, _, cname = canon.rpartition(".")
+    cls = ctx.tree.maybe(modname, cname)
+    if cls is None or not isinstance(cls, ast.ClassDef):
+        return None
+    if meth in methods(cls):
+        return True
+    # a stub bound in __init__ (self.run = ...) also provides it
+    init = methods(cls).get("__init__")
+    if init is not None and any(isinstance(a, ast.Assign) and any(A.is_self_attr(t, meth) for t in a.targets) for a in A.walk_local(init)):
+        return True
+    out = False
+    for b in cls.bases:
+        bc = ctx.res.canon(b)
+        if bc in ("builtins.object", None):
+            continue
+        r = _class_defines(ctx, bc, meth, depth + 1)
+        if r is None:
+            return None
+        out = out or r
+    return out
+
+
+def check_capable_by_type(ctx):
+    """An element that keeps an object as it is given -- instead of building a Sequence from it -- because `isinstance(x, C)`
+    holds, and later calls `self._attr.run(...)` (fill, compute, request, fill_into) on it, relies on *every* C having that
+    method.  C must therefore be a class that defines it: `Sequence` for run, not the common base `LenaSequence`
+    (a FillSeq or FillComputeSeq has no run: accepted at construction, AttributeError at the first value)."""
+    res = ctx.res
+    n = 0
+    for mod, cls in ctx.tree.classes():
+        ms = methods(cls)
+        init = ms.get("__init__")
+        if init is None:
+            continue
+        used = {}
+        for name, fn in ms.items():
+            for c in A.walk_local(fn):
+                if isinstance(c, ast.Call) and isinstance(c.func, ast.Attribute) and c.func.attr in PROTOCOL_METHODS \
+                        and isinstance(c.func.value, ast.Attribute) and A.is_self_attr(c.func.value):
+                    used.setdefault(c.func.value.attr, set()).add(c.func.attr)
+        if not used:
+            continue
+        for p in P.paths_of(init):
+            if p.end == "raise":
+                continue
+            for i, e in enumerate(p.ev):
+                if e[0] != "stmt" or not isinstance(e[1], ast.Assign):
+                    continue
+                for t in e[1].targets:
+                    if not (isinstance(t, ast.Attribute) and A.is_self_attr(t) and t.attr in used):
+                        continue
+                    v = K.value_on_path(p, e[1].value, i)
+                    if isinstance(v, ast.Call):
+                        continue
+                    for lit, pol in P.Path(p.ev[:i], "fall").literals():
+                        if not (pol and isinstance(lit, ast.Call) and res.call_canon(lit) == "builtins.isinstance" and len(lit.args) == 2
+                                and A.src(lit.args[0]) == A.src(v)):
+                            continue
+                        classes = lit.args[1].elts if isinstance(lit.args[1], ast.Tuple) else [lit.args[1]]
+                        for cexpr in classes:
+                            for meth in sorted(used[t.attr]):
+                                n += 1
+                                has = _class_defines(ctx, res.canon(cexpr), meth)
+                                if has is None:
+                                    continue
+                                ctx.check("C01-g", has, lit, "%s.__init__ keeps `%s` as self.%s because `%s`, and %s calls self.%s.%s(): "
+                                          "the class %s does not define %s (its subclasses without it pass the test and fail at the first value)"
+                                          % (cls.name, A.src(v), t.attr, A.src(lit), cls.name, t.attr, meth, A.src(cexpr), meth),
+                                          detail="%s: isinstance(%s) licenses .%s()" % (cls.name, A.src(cexpr), meth),
+                                          construct="capable:%s.%s:%s:%s" % (cls.name, t.attr, A.src(cexpr), meth), path=p)
+    ctx.instances_floor("C01-g", n, 1, "isinstance tests that license a protocol call on a stored object")
+
+
 def check(ctx):
+    check_capable_by_type(ctx)
     check_generator_frame(ctx)
     check_transparent_errors(ctx)
     K.check_flow_to_iter(ctx, "C01-a", "Sequence.run and Source.__call__ promise an iterator whatever the input is, and elements "
@@ -479,6 +561,7 @@ def check(ctx):
 
 
 VARIANTS = [
+    M("runif-any-lenasequence", "lena/flow/elements.py", "isinstance(args[0], lena.core.Sequence)", "isinstance(args[0], lena.core.LenaSequence)", ["C01-g"]),
     M("flatten-stack-unreversed-push", "lena/core/meta.py", "    for el in seq:\n        if isinstance(el, lena_sequence.LenaSequence):\n            flattened.extend(flatten(el))", "    stack = list(seq)[::-1]\n    while stack:\n        el = stack.pop()\n        if isinstance(el, lena_sequence.LenaSequence):\n            stack.extend(el)", ["C01-d"]),
     TW("flatten-stack-reversed-push", "lena/core/meta.py", "    for el in seq:\n        if isinstance(el, lena_sequence.LenaSequence):\n            flattened.extend(flatten(el))", "    stack = list(seq)[::-1]\n    while stack:\n        el = stack.pop()\n        if isinstance(el, lena_sequence.LenaSequence):\n            stack.extend(reversed(list(el)))"),
     M("filter-run-builtin-filter", "lena/flow/filter.py", "        return (val for val in flow if self._selector(val))", "        return filter(self._selector, flow)", ["C01-f"]),
